@@ -485,4 +485,48 @@ def render (e : Aspects) (name : String) (a : Aspects) (v : Variant) : Req :=
     trailers := 0
     bodyEmpty := a.method == .get }
 
+/-! ### the request body as the checks see it, and wrappers around it
+
+`checkCodec` probes a GET request for a body with a zero-length read, `req.Body.Read([]byte{})`,
+and takes anything but `io.EOF` for "there is a body" (`http.NoBody` answers `io.EOF`).  With a
+tracer, `createServer` puts `tracer.TracingHandler` *around* `referenceServerChecks`: the checks
+then probe the `tracingReader` that wraps the body.  `Req.bodyEmpty` is "the probe answers
+`io.EOF`"; a wrapper is, as far as the checks can tell, how it answers the probe given what the
+wrapped body answers. -/
+
+/-- the answers to `Read([]byte{})`: `(0, io.EOF)`, `(0, nil)`, `(0, another error)` -/
+inductive Probe | eof | nothing | failed
+  deriving DecidableEq, Repr
+
+def Probe.isEOF : Probe → Bool
+  | .eof => true
+  | _ => false
+
+abbrev BodyWrapper := Probe → Probe
+
+/-- a wrapper that forwards reads verbatim (C14/C15: the tracer is transparent) -/
+def BodyWrapper.transparent (w : BodyWrapper) : Prop := ∀ p, w p = p
+
+/-- `tracingReader.Read`: `n, err = t.reader.Read(data)`; trace `data[:n]`; `return n, err` -/
+def tracingRead : BodyWrapper := fun p => p
+
+/-- no wrapper (no tracer) -/
+def noWrapper : BodyWrapper := fun p => p
+
+/-- the request with a body that answers `p` to the probe -/
+def withBody (r : Req) (p : Probe) : Req := { r with bodyEmpty := p.isEOF }
+
+/-- one request through the chain `createServer` builds when the body reaches the checks through
+the wrapper `w` (with a tracer: `tracingRead`; without: `noWrapper`); `p` is what the body as
+received answers to the probe -/
+def serverChainW (w : BodyWrapper) (count : Nat) (path : String) (r : Req) (p : Probe) : ChainOutcome :=
+  serverChain count path (withBody r (w p))
+
+/-- a sequence of requests (with their bodies' answers) against one server -/
+def serveChainW (w : BodyWrapper) (path : String) (calls : List String) (rs : List (Req × Probe)) : List ChainOutcome :=
+  serveChain path calls (rs.map fun rp => withBody rp.1 (w rp.2))
+
+/-- what the body of a conformant request answers: a GET has no body -/
+def conformantProbe (a : Aspects) (p : Probe) : Bool := a.method != .get || p == .eof
+
 end ConfModel.ServerChecks
